@@ -39,7 +39,7 @@ class Contract:
     def __init__(self, qualname, types=None, requires=None, ensures=None, returns=None, reads=None,
                  modifies=None, raises="never", props=None, result_type=None, native_effect=None,
                  assumed=False, note=None, alternatives=None, setup=None, inline_in_callers=False,
-                 hints=None):
+                 hints=None, lets=None):
         self.qualname = qualname
         self.types = types or {}
         self.requires = requires or {}
@@ -55,6 +55,12 @@ class Contract:
         self.note = note
         self.setup = setup
         self.hints = hints or []
+        self.lets = lets or {}
+
+    def bind_lets(self, ex, st, env):
+        for k, src in self.lets.items():
+            env[k] = SpecEval(ex, st, env).ev(src)
+        return env
 
 
 class QF:
@@ -532,6 +538,7 @@ def apply_contract(ex, contract, fv, args, kwargs, st, node):
     q = contract.qualname
     short = q.rsplit(".", 1)[-1]
     site = ex.ctx.site("call", q)
+    contract.bind_lets(ex, st, env)
     ev = SpecEval(ex, st, env)
     for label, src in contract.requires.items():
         oblige_spec(ex, st, "pre@call", f"{short}:{label}#{site}", ev.ev(src), node)
@@ -570,3 +577,28 @@ def apply_contract(ex, contract, fv, args, kwargs, st, node):
     for label, src in contract.ensures.items():
         assume_spec(ex, st, ev.ev(src), f"{short}:{label}")
     yield st, result
+
+
+@specfn("RdI")
+def _rdi(ev, node):
+    """RdI(candles, index, name): reading_by_index semantics - None for an invalid index,
+    python wrap-around for a valid negative one"""
+    from .iteration import merge_values
+
+    ser, idx, key = [ev.e(a) for a in node.args]
+    p = ev.heap[ser.oid]
+    if idx is None:
+        return None
+    it = to_int_term(idx)
+    valid = z3.And(it >= -p.length, it < p.length)
+    v = p.lookup(key, p.norm(idx))
+    return merge_values([(valid, v), (True, None)], ev.heap)
+
+
+@specfn("valid")
+def _valid(ev, node):
+    idx, n = ev.e(node.args[0]), ev.e(node.args[1])
+    if idx is None:
+        return False
+    it, nt = to_int_term(idx), to_int_term(n)
+    return wrap_bool(z3.And(it >= -nt, it < nt))
